@@ -16,6 +16,7 @@
         W  expected instance, correctly signed, wrong power-table delta
         O  expected instance, encoding larger than the client's size limit
         T  stream truncated in the middle of this certificate
+        R  expected instance, signed by the committee the latest power-table change retired (see below)
    Validity against the poller's own table is a fact about kinds (only V validates), decodability
    too (O and T do not decode); sequencing is decided from the instance numbers actually sent.
 
@@ -52,32 +53,86 @@ Resp(sc, k, first) ==
           items |-> [i \in 1..Min(Min(ReqLimit, Cap), Max(sc.pend - first, 0)) |->
                        [kind |-> "V", inst |-> first + i - 1, enc |-> sc.encs[first + i - sc.base]]]]
 
-RECURSIVE PollLoop(_, _, _)
-PollLoop(sc, k, p) ==
-  LET first == p.next
-      reqs2 == Append(p.reqs, first)
+\* ---------------------------------------------------------------- the node: poller + its own certificate store
+(* The node's own store also advances without the poller (its own consensus finalizes instances, another
+   channel delivers certificates); Poll starts every request with CatchUp (poller.go), which moves NextInstance
+   to the store's pending instance and must re-load the power table OF THAT INSTANCE.
+
+     n = [next, lag, S]
+        S     encodings in the node's own store, instance i at S[i+1]
+        next  Poller.NextInstance
+        lag   by how many power-table changes Poller.PowerTable is behind the table of `next` according to the
+              node's own store: 0 = it IS the table of NextInstance.  The code keeps it 0; only the named
+              deviations below make it positive.  Forged = whatever table a forged certificate left behind.
+     env = [dev, delta]   delta[i+1] = TRUE iff the honest certificate of instance i changes the power table
+                          (read only by the deviations); dev:
+        "none"       CatchUp loads the table of the new NextInstance                          (the code)
+        "lastdelta"  ... only if the latest stored certificate carries a delta
+        "nextplus1"  ... the table of (old NextInstance + 1)
+        "applylast"  ... its current table + the delta of the latest stored certificate only
+   Responder behaviour R: expected instance, signed with the keys of the committee RETIRED by the latest power
+   table change (valid against a table that is exactly one change behind, never against the table of `next`). *)
+Forged == -1
+NoEnv == [dev |-> "none", delta |-> <<>>]
+Changes(env, a, b) == Cardinality({i \in a..b : env.delta[i + 1]})      \* table changes made by certificates a..b
+LagAfterCatchUp(n, own, env) ==
+  CASE env.dev = "none" -> 0
+    [] env.dev = "lastdelta" -> IF env.delta[own] THEN 0 ELSE IF n.lag < 0 THEN n.lag ELSE n.lag + Changes(env, n.next, own - 1)
+    [] env.dev = "nextplus1" -> Changes(env, n.next + 1, own - 1)
+    [] env.dev = "applylast" -> IF n.lag < 0 THEN n.lag ELSE n.lag + Changes(env, n.next, own - 2)
+CatchUpN(n, env) == LET own == Len(n.S) IN
+  IF own = 0 \/ own = n.next THEN n ELSE [n EXCEPT !.next = own, !.lag = LagAfterCatchUp(n, own, env)]
+LocalAdvanceN(n, encs) == [n EXCEPT !.S = @ \o encs]
+
+\* length of the prefix of `acc` that validates, one certificate after the other, against the poller's table
+ValidRun(acc, lag) ==
+  IF lag = 0 THEN LET bad == {i \in DOMAIN acc : ~Valid(acc[i])}
+                  IN IF bad = {} THEN Len(acc) ELSE (CHOOSE i \in bad : \A j \in bad : i <= j) - 1
+  ELSE IF lag = 1 /\ Len(acc) >= 1 /\ acc[1].kind = "R" THEN 1 ELSE 0
+
+\* p = n plus the running result [status, recv, newc, reqs]; la[k] = encodings the node's own consensus stores while
+\* request k is in flight (after the responder received it, before the response is processed)
+RECURSIVE PollLoopN(_, _, _, _, _)
+PollLoopN(sc, la, env, k, p) ==
+  LET c == CatchUpN(p, env)
+      first == c.next
+      reqs2 == Append(c.reqs, first)
       r == Resp(sc, k, first)
-  IN IF r.mode = "reset" THEN [p EXCEPT !.status = "Failed", !.reqs = reqs2]
+      S1 == c.S \o (IF k <= Len(la) THEN la[k] ELSE <<>>)
+  IN IF r.mode = "reset" THEN [c EXCEPT !.status = "Failed", !.reqs = reqs2, !.S = S1]
      ELSE
-       LET status1 == IF r.pend >= first THEN "Hit" ELSE p.status
+       LET status1 == IF r.pend >= first THEN "Hit" ELSE c.status
            acc == ClientAccept([first |-> first, limit |-> ReqLimit], WithDec(r.items))
-           bad == {i \in DOMAIN acc : ~Valid(acc[i])}
-           nv == IF bad = {} THEN Len(acc) ELSE (CHOOSE i \in bad : \A j \in bad : i <= j) - 1
+           nv == ValidRun(acc, c.lag)
            illegal == nv < Len(acc)
            kept == IF illegal /\ ~ValidateFirst THEN nv + 1 ELSE nv
-           p2 == [next |-> first + nv, status |-> status1, recv |-> p.recv + nv,
-                  stored |-> p.stored \o [i \in 1..kept |-> acc[i].enc], reqs |-> reqs2]
+           \* certificates the store does not have yet are Put: instances Len(S1) .. first+kept-1
+           S2 == S1 \o [j \in 1..Max(0, first + kept - Len(S1)) |-> acc[Len(S1) - first + j].enc]
+           p2 == [c EXCEPT !.next = first + nv,
+                           !.lag = IF c.lag = 0 \/ nv = 0 THEN c.lag ELSE Forged,
+                           !.status = status1, !.recv = c.recv + nv, !.newc = c.newc + Max(0, first + nv - Len(S1)),
+                           !.S = S2, !.reqs = reqs2]
        IN IF illegal THEN [p2 EXCEPT !.status = "Illegal"]
           ELSE IF r.pend <= p2.next THEN p2
           ELSE IF p2.recv = 0 THEN [p2 EXCEPT !.status = "Failed"]
-          ELSE PollLoop(sc, k + 1, p2)
+          ELSE PollLoopN(sc, la, env, k + 1, p2)
 
-Poll(next0, sc) == PollLoop(sc, 1, [next |-> next0, status |-> "Miss", recv |-> 0, stored |-> <<>>, reqs |-> <<>>])
+PollN(n, sc, la, env) == PollLoopN(sc, la, env, 1, [next |-> n.next, lag |-> n.lag, S |-> n.S,
+                                                     status |-> "Miss", recv |-> 0, newc |-> 0, reqs |-> <<>>])
+
+\* one Poll of a poller that is in step with its store (no local advance): the node's store holds next0 certificates
+Poll(next0, sc) ==
+  LET res == PollN([next |-> next0, lag |-> 0, S |-> [i \in 1..next0 |-> <<"pre", i>>]], sc, <<>>, NoEnv)
+  IN [next |-> res.next, status |-> res.status, recv |-> res.recv, newc |-> res.newc, reqs |-> res.reqs,
+      stored |-> SubSeq(res.S, next0 + 1, Len(res.S))]
 
 \* ---------------------------------------------------------------- clauses of C16 (poller half)
 \* for an observation o = [status, next1, stored (encodings now in the store at next0 ..)] of Poll(next0, sc)
 ValidEncs(sc, m) == {m.stored[i] : i \in DOMAIN m.stored}
 StoresOnlyValid(m, o) == \A i \in DOMAIN o.stored : i <= Len(m.stored) /\ o.stored[i] = m.stored[i]
-AdvancesByPrefix(next0, m, o) == o.next1 = next0 + Len(m.stored) /\ Len(o.stored) = Len(m.stored)
+AdvancesByPrefix(next0, m, o) == o.next1 = m.next /\ o.next1 = next0 + Len(m.stored) /\ Len(o.stored) = Len(m.stored)
+\* the same two clauses for a node whose own store advances as well: o.stored / m.S are the whole store
+StoresOnlyValidN(m, o) == \A i \in DOMAIN o.stored : i <= Len(m.S) /\ o.stored[i] = m.S[i]
+AdvancesByPrefixN(m, o) == o.next1 = m.next /\ Len(o.stored) = Len(m.S)
 StatusIllegalIff(m, o) == (o.status = "Illegal") <=> (m.status = "Illegal")
 =============================================================================
